@@ -144,54 +144,251 @@ func c17MQTTTeardown(c *core.Ctx, clientsF *types.Var, brokerT *types.Named) {
 				"an exit of the read loop does not close the client and then call Broker.removeClient (which deletes only disconnected clients): the entry of a finished connection keeps occupying a maxAllowedConnection slot", witness(badSt)...)
 		}
 	}
+	// removeClient must exist and delete; every delete site of the package is then checked
 	if f := fn(c, mq, "Broker", "removeClient"); f != nil {
-		cons := fname(mq, "Broker", "removeClient") + "|deletes the entry under the write lock"
-		var del *ast.CallExpr
+		n := 0
 		for _, call := range calls(f.Body, false) {
 			if b, ok := f.Callee(call).(*types.Builtin); ok && b.Name() == "delete" && len(call.Args) == 2 && c17Field(f, call.Args[0]) == clientsF {
-				if v, ok := c17Obj(f, call.Args[1]).(*types.Var); ok && isParam(f, v) {
-					del = call
+				n++
+			}
+		}
+		if n == 0 {
+			c.Violate("R-C17-5", fname(mq, "Broker", "removeClient")+"|deletes the entry under the write lock", pos(c, f.Body),
+				"removeClient never deletes from Broker.clients: entries of closed connections are never released")
+		}
+	}
+	pkg := c.Prog.Pkg(mq)
+	nSites := 0
+	for _, file := range pkg.Syntax {
+		for _, d := range file.Decls {
+			fd, ok := d.(*ast.FuncDecl)
+			if !ok || fd.Body == nil {
+				continue
+			}
+			f := flow.NewFunc(pkg, fd)
+			for _, call := range calls(fd.Body, false) {
+				if b, ok := f.Callee(call).(*types.Builtin); ok && b.Name() == "delete" && len(call.Args) == 2 && c17Field(f, call.Args[0]) == clientsF {
+					nSites++
+					c17MQTTDelete(c, f, declName(pkg, fd), call, clientsF, brokerT)
 				}
 			}
 		}
-		if del == nil {
-			c.Violate("R-C17-5", cons, pos(c, f.Body), "removeClient never deletes clients[<its parameter>]: entries of closed connections are never released")
-			return
+	}
+	c.RequireCount("R-C17-5", "delete sites on Broker.clients", nSites, 2)
+}
+
+// c17MQTTDelete: a delete(clients, k) runs under the broker's write lock and, in the same critical
+// section, only after establishing about the value REGISTERED under k (looked up from clients):
+// no entry, or the registered client is disconnected / has just been closed, or it is identical to
+// a given client. Deleting on the strength of anything else (e.g. the caller's own state) can remove
+// the entry of a live successor connection after a takeover: clients then under-counts and both cap
+// tests admit more than maxAllowedConnection clients.
+func c17MQTTDelete(c *core.Ctx, f *flow.Func, decl string, del *ast.CallExpr, clientsF *types.Var, brokerT *types.Named) {
+	c.Count("functions_analysed", 1)
+	consLock := decl + "|deletes the entry under the write lock"
+	consDead := decl + "|delete removes only a dead or own entry"
+	// single-assignment canonicalisation (as for the insertion)
+	assignCount := map[types.Object]int{}
+	assignRHS := map[types.Object]ast.Expr{}
+	ast.Inspect(f.Body, func(n ast.Node) bool {
+		switch x := n.(type) {
+		case *ast.AssignStmt:
+			for i, l := range x.Lhs {
+				if o := c17Obj(f, l); o != nil {
+					assignCount[o]++
+					assignRHS[o] = nil
+					if len(x.Lhs) == len(x.Rhs) {
+						assignRHS[o] = x.Rhs[i]
+					}
+				}
+			}
+		case *ast.RangeStmt:
+			for _, e := range []ast.Expr{x.Key, x.Value} {
+				if e != nil {
+					if o := c17Obj(f, e); o != nil {
+						assignCount[o] += 2
+					}
+				}
+			}
 		}
-		locked := "ev:c17:broker-write-locked"
-		res := analyze(c, f, flow.Config{NoHavoc: true,
-			OnCall: func(st *flow.State, call *ast.CallExpr, callee types.Object, deferred bool) {
-				if op, recv := c17Mutex(f, call); op != "" {
-					if tv := f.Info.Types[recv]; tv.Type != nil {
-						t := tv.Type
-						if p, ok := t.(*types.Pointer); ok {
-							t = p.Elem()
-						}
-						if !types.Identical(t, brokerT) {
-							return
+		return true
+	})
+	var canon func(e ast.Expr, depth int) string
+	canon = func(e ast.Expr, depth int) string {
+		e = ast.Unparen(e)
+		if o := c17Obj(f, e); o != nil && depth < 3 {
+			if v, ok := o.(*types.Var); ok && !v.IsField() && !isParam(f, v) && assignCount[o] == 1 && assignRHS[o] != nil {
+				return canon(assignRHS[o], depth+1)
+			}
+		}
+		return f.Render(e)
+	}
+	delKey := canon(del.Args[1], 0)
+
+	type lookup struct {
+		stmt   *ast.AssignStmt
+		val    types.Object
+		valID  *ast.Ident
+		okKey  string // "" for the single-value form
+		ev     string
+		dead   []string   // keys of val.disconnected() calls
+		same   []ast.Expr // val == x comparisons
+		closed string
+	}
+	var lookups []*lookup
+	ast.Inspect(f.Body, func(n ast.Node) bool {
+		as, ok := n.(*ast.AssignStmt)
+		if !ok || len(as.Rhs) != 1 {
+			return true
+		}
+		ix, ok := ast.Unparen(as.Rhs[0]).(*ast.IndexExpr)
+		if !ok || c17Field(f, ix.X) != clientsF || canon(ix.Index, 0) != delKey {
+			return true
+		}
+		id, _ := as.Lhs[0].(*ast.Ident)
+		l := &lookup{stmt: as, ev: "ev:c17:del-lookup-locked@" + f.Pos(as.Pos())}
+		if id != nil && id.Name != "_" {
+			if o := c17Obj(f, id); o != nil && assignCount[o] == 1 {
+				l.val, l.valID = o, id
+				l.closed = "ev:c17:registered-closed@" + f.Pos(as.Pos())
+			}
+		}
+		if len(as.Lhs) == 2 {
+			if okID, ok := as.Lhs[1].(*ast.Ident); ok && okID.Name != "_" {
+				if o := c17Obj(f, okID); o != nil && assignCount[o] == 1 {
+					l.okKey = f.VarKey(okID)
+				}
+			}
+		}
+		lookups = append(lookups, l)
+		return true
+	})
+	for _, l := range lookups {
+		if l.val == nil {
+			continue
+		}
+		ast.Inspect(f.Body, func(n ast.Node) bool {
+			switch x := n.(type) {
+			case *ast.CallExpr:
+				if calleeIs(f, x, "(*"+mq+".Client).disconnected") {
+					if sel, ok := ast.Unparen(x.Fun).(*ast.SelectorExpr); ok && c17Obj(f, sel.X) == l.val {
+						l.dead = append(l.dead, f.CallKey(x))
+					}
+				}
+			case *ast.BinaryExpr:
+				if x.Op == token.EQL || x.Op == token.NEQ {
+					if (c17Obj(f, x.X) == l.val && !f.Info.Types[x.Y].IsNil()) || (c17Obj(f, x.Y) == l.val && !f.Info.Types[x.X].IsNil()) {
+						l.same = append(l.same, x)
+					}
+				}
+			}
+			return true
+		})
+	}
+	const evLocked = "ev:c17:broker-write-locked"
+	isBroker := func(recv ast.Expr) bool {
+		if tv := f.Info.Types[recv]; tv.Type != nil {
+			t := tv.Type
+			if p, ok := t.(*types.Pointer); ok {
+				t = p.Elem()
+			}
+			return types.Identical(t, brokerT)
+		}
+		return false
+	}
+	justified := func(st *flow.State) bool {
+		for _, l := range lookups {
+			if !st.Is(l.ev, flow.True) {
+				continue
+			}
+			if l.okKey != "" && st.Is(l.okKey, flow.False) {
+				return true // nothing registered: the delete is a no-op
+			}
+			if l.val == nil {
+				continue
+			}
+			if st.Is(f.NilKey(l.valID), flow.True) || st.Is(l.closed, flow.True) {
+				return true
+			}
+			for _, k := range l.dead {
+				if st.Is(k, flow.True) {
+					return true
+				}
+			}
+			for _, e := range l.same {
+				if c17Truth(f, st, e) == flow.True && e.(*ast.BinaryExpr).Op == token.EQL {
+					return true
+				}
+				if c17Truth(f, st, e) == flow.False && e.(*ast.BinaryExpr).Op == token.NEQ {
+					return true
+				}
+			}
+		}
+		return false
+	}
+	var badLock, badDead *flow.State
+	nStates := 0
+	res := analyze(c, f, flow.Config{NoHavoc: true,
+		OnNode: func(st *flow.State, n ast.Node) {
+			for _, l := range lookups {
+				if n == ast.Node(l.stmt) {
+					st.Set(l.ev, st.Get(evLocked))
+					if l.closed != "" {
+						st.Set(l.closed, flow.Unknown)
+					}
+				}
+			}
+		},
+		OnCall: func(st *flow.State, call *ast.CallExpr, callee types.Object, deferred bool) {
+			if op, recv := c17Mutex(f, call); op != "" && isBroker(recv) {
+				for _, l := range lookups {
+					st.Set(l.ev, flow.Unknown)
+				}
+				st.Set(evLocked, flow.Val(map[bool]flow.Val{true: flow.True, false: flow.False}[op == "Lock"]))
+				return
+			}
+			if calleeIs(f, call, "(*"+mq+".Client).close", "(*"+mq+".Client).closeAndDelSession") {
+				if sel, ok := ast.Unparen(call.Fun).(*ast.SelectorExpr); ok {
+					for _, l := range lookups {
+						if l.val != nil && c17Obj(f, sel.X) == l.val {
+							st.Set(l.closed, flow.True)
 						}
 					}
-					st.Set(locked, flow.Val(map[bool]flow.Val{true: flow.True, false: flow.False}[op == "Lock"]))
 				}
-			}})
-		if res == nil {
-			return
-		}
-		ok := len(res.At[del]) > 0
-		why := "the delete is unreachable"
-		var badSt *flow.State
-		for _, st := range res.At[del] {
-			if !st.Is(locked, flow.True) {
-				ok, why, badSt = false, "clients is mutated without the broker's write lock", st
 			}
-		}
-		for _, ex := range res.Exits {
-			if ex.State.Is(locked, flow.True) {
-				ok, why, badSt = false, "removeClient returns with the broker lock held", ex.State
+			if call == del {
+				nStates++
+				if !st.Is(evLocked, flow.True) && badLock == nil {
+					badLock = st
+				}
+				if !justified(st) && badDead == nil {
+					badDead = st
+				}
 			}
-		}
-		c.Check(ok, "R-C17-5", cons, pos(c, del), "delete(clients, id) is reachable, write-locked, and the lock is released on every exit", why, witness(badSt)...)
+		}})
+	if res == nil {
+		return
 	}
+	why := "clients is mutated without the broker's write lock"
+	if nStates == 0 {
+		why = "the delete is unreachable: entries of closed connections are never released"
+	}
+	var lockLeak *flow.State
+	for _, ex := range res.Exits {
+		if ex.State.Is(evLocked, flow.True) {
+			lockLeak = ex.State
+		}
+	}
+	if badLock == nil && lockLeak != nil {
+		badLock, why = lockLeak, "the function returns with the broker lock held"
+	}
+	c.Check(nStates > 0 && badLock == nil, "R-C17-5", consLock, pos(c, del),
+		sprintf("delete(clients, id) is reachable (%d states), write-locked, and the lock is released on every exit", nStates), why, witness(badLock)...)
+	c.Check(badDead == nil, "R-C17-5", consDead, pos(c, del),
+		"every state at the delete has established, in the same critical section, that the client REGISTERED under the key is absent, disconnected, just closed, or identical to a given client",
+		"the entry is deleted without having established, in the same critical section, that the client currently REGISTERED under this id (looked up from Broker.clients) is absent, disconnected, just closed or the caller's own: after a client-id takeover the teardown of the superseded connection removes its live successor's entry, Broker.clients under-counts, and both cap tests admit more than maxAllowedConnection clients",
+		witness(badDead)...)
+
 }
 
 func c17MQTTSite(c *core.Ctx, pkg *packages.Package, fd *ast.FuncDecl, ins *ast.AssignStmt, insKey ast.Expr,
